@@ -394,7 +394,7 @@ pub fn run(_cfg: &Cfg) -> Outcome {
     let mut o = Outcome::new("model_checking", acc);
     o.exhaustive = true;
     o.cov("rule", json!("exhaustive over the constructor-argument product, differential against the core: (A) timezone{absent,Paris,UTC,Apia} × country{absent,FR,US,XX,fr,''} × coords{absent,Paris,NYC,(0,0),(91,0),(0,181),(nan,0)} × auto_country{absent,True,False,None} × auto_timezone{same} = 2688 constructor calls per expression × expressions × probe datetimes × {state, is_*, next_change, first 6 of intervals(start) and intervals(start,end)}; (B) 10 representative contexts × 6 expressions × 28 datetimes (naive / aware in Paris, UTC, Tokyo; DST gap and both folds; range ends) × all methods + normalize/str; (C) validate ⇔ constructor accepts, str == core, eval(repr) round trip on a comment alphabet (backslash, quote, non-ASCII, combining mark, control characters). Expected values: the documented constructor semantics build the equivalent core context; evaluation in the naive domain by the real core (events through the located context), results mapped back with the real TzLocation::datetime; 10000-01-01 ↦ None; zone of results = context zone, else input zone. states = records, transitions = (record, datetime) points; distinct_nontrivial = distinct constructor argument combinations"));
-    o.assume("CPython 3.11 (/usr/bin/python3) and its zoneinfo data; aware datetimes whose wall-clock time does not exist are only checked for the absence of panics; for (timezone, coords, auto_timezone=False) the docstring is silent on whether coordinates refine sun events: both readings are accepted");
+    o.assume("CPython 3.11 (/usr/bin/python3) and its zoneinfo data; aware datetimes whose wall-clock time does not exist in their own zone, or whose tzinfo is a fixed offset, are refused by the conversion layer today (two listed findings); were they accepted, only the absence of panics would be checked for them; for (timezone, coords, auto_timezone=False) the docstring is silent on whether coordinates refine sun events: both readings are accepted");
     o
 }
 
